@@ -30,6 +30,7 @@ import JanetModel.Compile.Theorem
 import JanetModel.Compile.SeqTheorem
 import JanetModel.Compile.SeqCore
 import JanetModel.Compile.SeqTail
+import JanetModel.Compile.SeqCallL
 namespace JanetModel.Props.C02
 open JanetModel.Emit
 
@@ -434,6 +435,52 @@ example : TF (fun f => f = "tuple" ∨ f = "emit") false
       · exact .deff "y" _ {} (by decide) (.lit _ trivial)
       · exact .sym "y"
 
+/-- **Compile correctness, calls through a local**: `(x e₁ … eₙ)` where `x` is a LOCAL name (`lookupEnv env x = some a`) whose box
+    holds a core function at entry (`readBox s a = .cfun f`, `f ≠ apply`; e.g. `(def pr print) … (pr 1 2)`), operands in the fragment
+    `TF G false`.  `janetc_resolve` gives the local's register as the head slot, no constant is loaded, the code is operands, pushes,
+    `CALL d r_x`, and the callee is read from the register WHEN THE CALL IS MADE — after the operands ran; they leave it untouched
+    (it is allocated) and cannot change the box (`Lang/Sem` reads the head first).  Conclusion: `Correct2 … false …`, i.e. literally
+    the conclusion of `compile_correct_nary_calls` (compile-side shape, slot facts, `EnvS`, `NameFrame`, the VM run reaching value,
+    world and `EnvD`).  That the callee is a core function is a hypothesis on the entry state: a closure as callee is the `fn` case
+    (not covered), and nothing in the fragment can tell the two apart statically. -/
+theorem compile_correct_local_calls (p : Program) (f0 : Frame) (rest : List Frame) (V : Array Value) (P : List JanetModel.Emit.KConst)
+    (hP : P.length < 65536)
+    (hK : ∀ i, i < P.length → (p.defs.getD f0.defIdx default).consts.getD i .nil = litOf V (P.getD i .nil))
+    (FF : FloatFacts) (G : String → Prop)
+    (fuel : Nat) (x : String) (args : List Expr) (pp : Pos) (opts : Fopts) (c c' : CState) (slot : JSlot) (sc : Scope) (rs : List Scope)
+    (pool : List JanetModel.Emit.KConst) (ps : List (List JanetModel.Emit.KConst)) (n : Nat) (cur : Pos) (env env' : Env) (s s' : SS) (v : Value)
+    (f : String) (a : Nat)
+    (ht : opts.tail = false) (hh : opts.hint = none)
+    (hs : c.scopes = sc :: rs) (hp : c.pools = pool :: ps) (hl : c.lim ≤ 240) (htop : sc.top = false)
+    (hxs : specials.contains x = false) (hx : lookupEnv env x = some a) (hbox : readBox s a = .cfun f) (hna : f ≠ "apply")
+    (hargs : ∀ e, e ∈ args → TF G false e)
+    (hcomp : cValue (fuel + 1) opts (.form (.sym x :: args) pp) c = some (slot, c'))
+    (hsem : eval n cur env (.form (.sym x :: args) pp) s = .ok (v, env') s')
+    (henv : EnvS G c.scopes env s.boxes.size sc.ra) :
+    Correct2 p f0 rest V P G false c c' slot sc rs pool ps env env' s s' v := by
+  rw [cValue_call_o fuel opts ht hh x args pp c hxs] at hcomp
+  obtain ⟨q, hq⟩ := curAt_eq c pp
+  cases hcc : cCall (cValue fuel) {} (.sym x) args (curAt c pp) with
+  | none => rw [hcc] at hcomp; simp [fin] at hcomp
+  | some res =>
+    obtain ⟨slot0, cq⟩ := res
+    rw [hcc] at hcomp
+    simp only [fin, Option.some.injEq, Prod.mk.injEq] at hcomp
+    obtain ⟨hsl, hc'⟩ := hcomp
+    subst hsl hc'
+    obtain ⟨n2, vs, s_a, _, hsa, happ⟩ := eval_callL_inv n cur env env' x a args pp s s' v hxs hx hsem
+    rw [hbox] at happ
+    rw [hq] at hcc
+    exact Correct2.recur p f0 rest V P (q := q)
+      (callL_core p f0 rest V P hP hK G (TF G false) false fuel
+        (tf_correct p f0 rest V P hP hK FF G false false (fun h => absurd h (by simp)) fuel)
+        (fun h => absurd h (by simp)) (fun e h => h.notSplice) x args f hna hargs
+        { c with cur := q } cq slot0 sc rs pool ps n2 (posOf cur pp) env env' s s_a s' vs v a hs hp hl htop (fun h => absurd h (by simp))
+        hx hbox hcc hsa happ henv)
+
+/-- non-vacuity: a state in which the local `pr` holds the core function `print` -/
+example : lookupEnv [("pr", 0)] "pr" = some 0 ∧ readBox { boxes := #[.cfun "print"] } 0 = .cfun "print" := ⟨rfl, rfl⟩
+
 /-- **Compile correctness, tail position (calls)**: a call `(f e₁ … eₙ)` of a global core function (`G f`, not `apply`, not a
     special form), operands in the fragment `TF G false`, compiled with the TAIL flag in a scope that is not the top level
     (`janetc_call` with JANET_FOPTS_TAIL): the operands and the pushes are those of the non-tail case, then JOP_TAILCALL of the
@@ -480,8 +527,10 @@ theorem compile_correct_tail_calls (p : Program) (f0 : Frame) (rest : List Frame
     rw [hq] at hcc
     obtain ⟨hret, mx, more, seg, segm, b1, b2, b3, b4, b5, vm⟩ :=
       tail_call_core p f0 rest V P hP hK FF G (TF G false) false fuel
-        (tf_correct p f0 rest V P hP hK FF G false false (fun h => absurd h (by simp)) fuel) (fun a h => h.notSplice)
-        opts ht f args hna hG hargs { c with cur := q } c1 ret sc rs pool ps n2 (posOf cur pp) env env' s s_a s' vs v hs hp hl htop hcc hsa happ henv
+        (tf_correct p f0 rest V P hP hK FF G false false (fun h => absurd h (by simp)) fuel)
+        (fun h => absurd h (by simp)) (fun a h => h.notSplice)
+        opts ht f args hna hG hargs { c with cur := q } c1 ret sc rs pool ps n2 (posOf cur pp) env env' s s_a s' vs v hs hp hl htop
+        (fun h => absurd h (by simp)) hcc hsa happ henv
     simp only [cReturn_returned c1 ret hret, Option.bind_some, Option.some.injEq, Prod.mk.injEq] at hcomp
     obtain ⟨e1, e2⟩ := hcomp
     subst e1 e2
